@@ -184,6 +184,7 @@ where
                 self.events_out.push(Ok(out.into()));
             }
             ConnectionEvent::DialUpgradeError(DialUpgradeError { error, .. }) => {
+                self.dial_negotiated -= 1;
                 self.events_out.push(Err(error));
             }
             ConnectionEvent::AddressChange(_)
